@@ -1,5 +1,7 @@
 """C06  Lexical scoping; closures capture variables, not values  (Machine.tla cells, Gen.tla static resolution)."""
 import profcheck
+import scenarios
+import vlib
 
 PROP = "C06"
 SCOPE = ["print", "var", "set", "block", "if", "else", "fn", "call", "call1", "lam", "return", "while", "for", "break", "exprstmt", "arith"]
@@ -26,6 +28,8 @@ def main(tier, seed):
          "simulate": 3000 if q else 40000, "seed_offset": 3},
     ]
     rep = profcheck.run(PROP, tier, seed, plan, feature=uses_closure)
+    bins = [("dev", vlib.build_harness("dev")), ("release", vlib.build_harness("release"))]
+    profcheck.run_scenarios(rep, "capture", scenarios.capture_scenarios(), bins, PROP)
     rep.coverage["exhaustive"] = True
     rep.coverage["rule"] = ("programs over <= 2 variable names and 2 function names with blocks, functions, lambdas reading / writing a captured "
                             "variable, calls after scope exit, loops (per-iteration variables, the shared loop variable), shadowing; name "
